@@ -224,6 +224,7 @@ def render(reader: io.Reader, writer: io.Writer, allowed: Optional[List[str]] = 
                 text = utils.replaceMatch(match, d.replacement, Expand(macros=True)) if d.replacement else ''
             if text:
                 text = blockattributes.injectHtmlAttributes(text)
+                blockattributes.opts = Expand()  # Pending block options end here too, they are not kept for a later block.
                 writer.write(text)
                 reader.next()
                 if not reader.eof():
